@@ -237,7 +237,7 @@ Proof.
   - destruct (cs_invoke _ _ _ _ _ _ _ _ _ CS) as (tmpv & d & _ & _ & _ & CD).
     destruct (Nat.leb (List.length (txtors d)) 1).
     + subst code. destruct tmpv; cbn [a_jump]; [apply (ends_nz_last [])|apply (ends_nz_last [_])]; cbn; lia.
-    + destruct CD as (k & _ & ->). destruct tmpv; cbn [a_add_and_jump]; [apply (ends_nz_last [_])|apply (ends_nz_last [_; _])]; cbn; lia.
+    + destruct CD as (k & _ & ->). destruct tmpv; cbn [a_add_and_jump]; [apply ends_nz_last|apply ends_nz_app, ends_nz_last]; cbn; lia.
   - cbn [stmt_ne] in NE. destruct (cs_literal _ _ _ _ _ _ _ _ CS) as (tv & c2 & _ & NX & ->). apply ends_nz_app. eauto.
   - cbn [stmt_ne] in NE. destruct (cs_op _ _ _ _ _ _ _ _ _ _ CS) as (tv & ta & tb & c2 & _ & _ & _ & NX & ->). apply ends_nz_app. eauto.
   - cbn [stmt_ne] in NE. destruct (cs_print _ _ _ _ _ _ _ _ CS) as (tv & c2 & _ & NX & ->). apply ends_nz_app. eauto.
